@@ -66,3 +66,104 @@ def parseRange (value : Str) : Option (Str × List RangeT) :=
   | _ => none
 
 end Poor.HeaderValue
+
+namespace Poor.HeaderValue
+open Poor
+
+/-! ### parameterised header values: `_parseparam`, `parse_header`, `_formatparam` -/
+
+/-- `str.isspace()` for the characters `str.strip()` removes -/
+def isSpace (c : Char) : Bool :=
+  let n := c.toNat
+  (9 ≤ n && n ≤ 13) || (28 ≤ n && n ≤ 32) || n = 133 || n = 160 || n = 5760 || (8192 ≤ n && n ≤ 8202)
+    || n = 8232 || n = 8233 || n = 8239 || n = 8287 || n = 12288
+
+def strip (s : Str) : Str := ((s.dropWhile isSpace).reverse.dropWhile isSpace).reverse
+
+/-- the inner loop of `_parseparam`: the text up to the next `;` outside quotes (a backslash
+    inside quotes hides the next character), and what follows -/
+def splitSeg : Bool → Str → Str × Str
+  | _, [] => ([], [])
+  | true, '\\' :: c :: r => ('\\' :: c :: (splitSeg true r).1, (splitSeg true r).2)
+  | true, ['\\'] => (['\\'], [])
+  | q, c :: r =>
+    if c = '"' then ('"' :: (splitSeg (!q) r).1, (splitSeg (!q) r).2)
+    else if c = ';' && !q then ([], ';' :: r)
+    else (c :: (splitSeg q r).1, (splitSeg q r).2)
+
+theorem splitSeg_length (q : Bool) (s : Str) : (splitSeg q s).2.length ≤ s.length := by
+  fun_induction splitSeg q s <;> simp_all <;> omega
+
+/-- `_parseparam(s)`: the stripped segments -/
+def parseParam : Str → List Str
+  | ';' :: s => strip (splitSeg false s).1 :: parseParam (splitSeg false s).2
+  | _ => []
+termination_by s => s.length
+decreasing_by
+  have := splitSeg_length false s
+  simp only [List.length_cons]; omega
+
+/-- `str.replace(a ++ b, r)` for a two-character needle: leftmost, non-overlapping -/
+def replacePair (a b r : Char) : Str → Str
+  | x :: y :: rest => if x = a ∧ y = b then r :: replacePair a b r rest else x :: replacePair a b r (y :: rest)
+  | s => s
+
+/-- `value.replace('\\\\', '\\').replace('\\"', '"')` -/
+def unescape (s : Str) : Str := replacePair '\\' '"' '"' (replacePair '\\' '\\' '\\' s)
+
+def lowerAscii (s : Str) : Str := s.map Char.toLower
+
+/-- `pdict[name] = value` -/
+def dictSet (d : List (Str × Str)) (k v : Str) : List (Str × Str) :=
+  if d.any (fun e => e.1 == k) then d.map fun e => if e.1 == k then (k, v) else e else d ++ [(k, v)]
+
+/-- one `name=value` parameter segment -/
+def parseOne (p : Str) : Option (Str × Str) :=
+  if p.contains '=' then
+    let name := lowerAscii (strip (p.takeWhile (· != '=')))
+    let value := strip ((p.dropWhile (· != '=')).drop 1)
+    let value := if value.length ≥ 2 && value.head? = some '"' && value.getLast? = some '"'
+      then unescape ((value.drop 1).dropLast) else value
+    some (name, value)
+  else none
+
+/-- `parse_header(line)`: the main value and the parameter dictionary (insertion order) -/
+def parseHeader (line : Str) : Str × List (Str × Str) :=
+  match parseParam (';' :: line) with
+  | [] => ([], [])
+  | key :: parts =>
+    (key, parts.foldl (fun d p => match parseOne p with | some (k, v) => dictSet d k v | none => d) [])
+
+/-- the escaping `_formatparam` applies inside the quotes -/
+def escQ (v : Str) : Str :=
+  v.flatMap fun c => if c = '\\' then ['\\', '\\'] else if c = '"' then ['\\', '"'] else [c]
+
+/-- `name="value"` as `add_header(..., **{name: value})` renders it (non-empty value) -/
+def renderParam (k v : Str) : Str := k ++ "=\"".toList ++ escQ v ++ "\"".toList
+
+/-- a whole parameterised header value: `main; k1="v1"; k2="v2"` -/
+def renderHeader (main : Str) (ps : List (Str × Str)) : Str :=
+  main ++ ps.flatMap fun kv => "; ".toList ++ renderParam kv.1 kv.2
+
+/-! ### negotiation lists -/
+
+def splitOnChar (c : Char) (s : Str) : List Str := s.splitOn c
+
+/-- split at the first occurrence of `;q=` -/
+def splitQ : Str → Option (Str × Str)
+  | ';' :: 'q' :: '=' :: r => some ([], r)
+  | c :: r => (splitQ r).map fun x => (c :: x.1, x.2)
+  | [] => none
+
+/-- one item of `parse_negotiation`: the value and the text after the first `;q=` up to
+    the next `;q=` (what `float()` is applied to), if any -/
+def parseNegoItem (item : Str) : Str × Option Str :=
+  match splitQ item with
+  | none => (strip item, none)
+  | some (v, r) =>
+    let q := match splitQ r with | some (q, _) => q | none => r
+    (strip v, some q)
+
+def parseNegotiation (value : Str) : List (Str × Option Str) := (value.splitOn ',').map parseNegoItem
+
+end Poor.HeaderValue
